@@ -52,6 +52,7 @@ type peer struct {
 	start     func()                                           // tell the peer the session is up (it may start sending)
 	received  func() []byte                                    // what the peer got from the client
 	closePeer func()                                           // the peer goes away
+	freeze    func()                                           // the peer goes silent without closing anything (nil: not modelled)
 	cleanup   func()
 	ready     []byte // marker the peer prints before the session counts as up
 }
@@ -163,7 +164,7 @@ func mkPeer(kind, dir, sc string, data []byte, tmp string) (*peer, error) {
 				}
 				mu.Unlock()
 			},
-			cleanup: srv.Close,
+			cleanup: srv.Close, freeze: srv.Freeze,
 		}, nil
 	case "telnet-loop":
 		var conns []net.Conn
@@ -192,7 +193,7 @@ func mkPeer(kind, dir, sc string, data []byte, tmp string) (*peer, error) {
 				}
 				mu.Unlock()
 			},
-			cleanup: srv.Close,
+			cleanup: srv.Close, freeze: srv.Freeze,
 		}, nil
 	case "system-pty", "system-pty-netconf":
 		pf := filepath.Join(tmp, "payload")
@@ -406,16 +407,29 @@ func unblockCell(w *sched.W, kind, how string) {
 		done <- err
 	}()
 	time.Sleep(50 * time.Millisecond)
+	closed := make(chan struct{})
 	switch how {
 	case "close":
-		go func() { _ = t.Close(true) }()
+		go func() { _ = t.Close(true); close(closed) }()
+	case "close-silent-peer":
+		// the peer stopped answering (no reset, no close): Close cannot count on any reply from it
+		p.freeze()
+		time.Sleep(20 * time.Millisecond)
+		go func() { _ = t.Close(true); close(closed) }()
 	case "peer-closes":
 		p.closePeer()
+		close(closed)
 	}
 	select {
 	case <-done:
 	case <-time.After(30 * time.Second):
 		w.Violate("c16:blocked-read-never-returns:"+kind+":"+how, tag, tag)
+		return
+	}
+	select {
+	case <-closed:
+	case <-time.After(30 * time.Second): // whether Close itself returns is C07's question
+		return
 	}
 	_ = t.Close(true)
 }
@@ -643,6 +657,9 @@ func scenarios(tier string) []sched.Scenario {
 		out = append(out, sched.Scenario{Name: "unblock/" + kind, Run: func(w *sched.W) {
 			unblockCell(w, kind, "close")
 			unblockCell(w, kind, "peer-closes")
+			if !strings.HasPrefix(kind, "system-pty") {
+				unblockCell(w, kind, "close-silent-peer")
+			}
 		}})
 	}
 	for _, k := range []string{"standard-shell", "telnet-loop", "system-pty"} {
@@ -667,7 +684,7 @@ func TestCheck(t *testing.T) {
 	sched.Main(t, sched.Check{
 		ID:    "C16",
 		Level: "exploration",
-		Rule:  "finite grid, every cell executed once over real OS objects: transport {standard ssh shell, standard ssh netconf subsystem (in-process x/crypto/ssh server), telnet over loopback TCP, system transport over a pty with a stand-in peer in raw mode (shell and netconf-subsystem flavours)} x read size {1,7,64,8192} x payload size {1,n-1,n,n+1,2n+1,3n} (bytes cycling through 0x00-0xff) x peer script {one write, two halves, byte at a time, write-pause-write} x direction {peer->client, client->peer, echo}; plus a telnet opening split into two TCP segments at every offset; plus a read blocked when the transport is force-closed / when the peer goes away, and end-to-end CLI and NETCONF sessions whose results must equal those obtained over the ideal fake transport; distinct = distinct cells",
+		Rule:  "finite grid, every cell executed once over real OS objects: transport {standard ssh shell, standard ssh netconf subsystem (in-process x/crypto/ssh server), telnet over loopback TCP, system transport over a pty with a stand-in peer in raw mode (shell and netconf-subsystem flavours)} x read size {1,7,64,8192} x payload size {1,n-1,n,n+1,2n+1,3n} (bytes cycling through 0x00-0xff) x peer script {one write, two halves, byte at a time, write-pause-write} x direction {peer->client, client->peer, echo}; plus a telnet opening split into two TCP segments at every offset; plus a read blocked when the transport is force-closed (also after the peer has gone silent without closing anything: standard, telnet) / when the peer goes away, and end-to-end CLI and NETCONF sessions whose results must equal those obtained over the ideal fake transport; distinct = distinct cells",
 		Assumptions: []string{
 			"real sockets, ptys and crypto/ssh cannot run under the controlled scheduler: kernel scheduling and TCP/pty buffering are not enumerated, each cell is one run (stated limit)",
 			"pty leg: the stand-in peer switches the pty to raw mode and prints READY before the session counts as up",
